@@ -1,5 +1,6 @@
 """C13 writers never lose data silently on short writes or sink errors (fault enumeration)."""
 import json
+import os
 import random
 
 from . import common
@@ -75,6 +76,11 @@ def check(run, replay_case=None):
         batches.append([{'id': '%s/p' % c['cid'], 'op': 'parse_schema', 'sid': sid, 'text': json.dumps(c['schema'])},
                         {'id': '%s/s' % c['cid'], 'op': 'sink_scan', 'scenario': c['scenario'], 'thorough': thorough}])
     ev = run.exec_cases(batches, cpu_limit_s=3000)
+    if (not run.quick() or os.environ.get('VERIF_SANITIZERS') == '1') and replay_case is None:
+        # the fault scan of container scenarios ends in Writer::into_inner / Drop after injected faults (the crate's unsafe blocks)
+        from .. import sanitizers
+        sanitizers.miri_stage(run, [b for b in batches if b[1]['scenario']['op'] in ('writer_history', 'so_history')], ev, max_cases=int(os.environ.get('VERIF_MIRI_CASES', '16')),
+                              shards=12, what='sink_scan_ops', max_bytes=4000)
     total = 0
     for c in scen:
         e = ev.get('%s/s' % c['cid'])
